@@ -120,4 +120,69 @@ def resume (C : Crypto) (key : List UInt8) (cfg : Config) (rule : Option Rule) (
       .ok { params := p, state := st, master := match st with | some s => s.master | none => [] }
     else .ok { params := p, state := none, master := [] }
 
+/-! ### session-ID cache: `bfe_server.ServerSessionCache` (redis: `SET key value` + `EXPIRE key SessionExpire`, `GET key`)
+
+  One store may be shared by several servers; each prepends its own `KeyPrefix`.  Time is a logical clock in
+  seconds; redis drops a key when its expiry has elapsed. -/
+
+structure CacheEntry where
+  key : String
+  value : List UInt8
+  expiresAt : Nat
+deriving Repr
+
+def cacheKey (keyPrefix sessionKey : String) : String := keyPrefix ++ ":" ++ sessionKey
+
+/-- `Put`: SET then EXPIRE -/
+def cachePut (c : List CacheEntry) (keyPrefix sessionKey : String) (v : List UInt8) (now ttl : Nat) : List CacheEntry :=
+  { key := cacheKey keyPrefix sessionKey, value := v, expiresAt := now + ttl } ::
+    c.filter fun e => e.key != cacheKey keyPrefix sessionKey
+
+/-- `Get` -/
+def cacheGet (c : List CacheEntry) (keyPrefix sessionKey : String) (now : Nat) : Option (List UInt8) :=
+  match c.find? fun e => e.key == cacheKey keyPrefix sessionKey with
+  | some e => if now < e.expiresAt then some e.value else none
+  | none => none
+
+/-- eviction / deletion of one key -/
+def cacheDel (c : List CacheEntry) (key : String) : List CacheEntry := c.filter fun e => e.key != key
+
+/-! ### stored client certificates on resumption (`doResumeHandshake` → `processCertsFromClient`) -/
+
+/-- what the checks can tell about the chain stored in the session, judged NOW: `chainOk` is x509 Verify against the
+    CA pool of the current connection (the current rule's ClientCAs, else the Config's) -/
+structure StoredCert where
+  parses : Bool
+  revoked : Bool
+  chainOk : Bool
+  ekuListed : Bool
+  keyOk : Bool
+deriving DecidableEq, Repr
+
+/-- error = alert number; ok b: b = the chain was verified (conn.verifiedChains set) -/
+def resumeCertStep (policy : Nat) (stored : Option StoredCert) : Except Nat Bool :=
+  match stored with
+  | none => .ok false
+  | some c =>
+    if !c.parses then .error 42
+    else if c.revoked then .error 44
+    else if policy ≥ Generated.C44.verifyClientCertIfGiven && !c.chainOk then .error 42
+    else if policy ≥ Generated.C44.verifyClientCertIfGiven && !c.ekuListed then .error 40
+    else if !c.keyOk then .error 43
+    else .ok (decide (policy ≥ Generated.C44.verifyClientCertIfGiven))
+
+/-! ### the one ticket key of a server and its replacement (`HttpsListener.UpdateSessionTicketKey`) -/
+
+/-- bfe keeps exactly ONE ticket key (`Config.SessionTicketKey`); a reload replaces it — there is no ring of old keys -/
+structure TicketServer where
+  key : List UInt8
+  issued : List (SessionState × List UInt8)      -- (state, iv) sealed under the CURRENT key
+
+def TicketServer.issue (C : Crypto) (srv : TicketServer) (s : SessionState) (iv : List UInt8) : TicketServer × List UInt8 :=
+  ({ srv with issued := (s, iv) :: srv.issued }, encryptTicket C srv.key iv s)
+
+def TicketServer.rotate (_srv : TicketServer) (newKey : List UInt8) : TicketServer := { key := newKey, issued := [] }
+
+def TicketServer.accept (C : Crypto) (srv : TicketServer) (t : List UInt8) : Option SessionState := decryptTicket C srv.key t
+
 end BfeVerif.C44
